@@ -890,7 +890,30 @@ func pathCovers(k, q []string) bool { // k is a (wildcard-free) prefix of q
 func (tb *TB) liveStores(a *ssa.Alloc, ci *cellInfo, q []string) []storeRec {
 	L := tb.curLoad
 	if L == nil || L.Parent() != a.Parent() {
-		return ci.stores
+		// a read inside a closure: what the closure can see is what reaches its creation unkilled, plus every store
+		// that can still run after its creation
+		var mc ssa.Instruction
+		if refs := a.Referrers(); refs != nil {
+			for _, r := range *refs {
+				if m, ok := r.(*ssa.MakeClosure); ok {
+					if mc != nil {
+						return ci.stores
+					}
+					mc = m
+				}
+			}
+		}
+		if mc == nil || L == nil {
+			return ci.stores
+		}
+		killers := tb.killersOf(ci, q, mc)
+		var out []storeRec
+		for _, s := range ci.stores {
+			if s.in == nil || s.in.Parent() != a.Parent() || reachesAvoiding(s.in, mc, killers) || instrReaches(mc, s.in) {
+				out = append(out, s)
+			}
+		}
+		return out
 	}
 	killers := tb.killersOf(ci, q, L)
 	var out []storeRec
@@ -976,6 +999,9 @@ func (tb *TB) cellContent(a *ssa.Alloc, at *Term, path []string, e *Env) *Term {
 	}
 	ci := tb.cell(a)
 	live := tb.liveStores(a, ci, path)
+	if g := tb.gatedCell(a, at, ci, live, path, e); g != nil {
+		return g
+	}
 	var alts []*Term
 	subFields := map[string]bool{}
 	partial, okStruct := false, true
@@ -1028,6 +1054,89 @@ func (tb *TB) cellContent(a *ssa.Alloc, at *Term, path []string, e *Env) *Term {
 		return mk("zero", at.Sym+"."+strings.Join(path, "."))
 	}
 	return mkPhi(alts)
+}
+
+// gatedCell: the common "default under a test" shape of a local cell — an unconditional store S0 followed by
+// one conditional store S1 (S0 dominates S1, S1's block is entered under exactly one more branch condition than
+// S0's) — read where both may be visible gives ite(cond; v1; v0) instead of an ungated phi. For a read inside a
+// closure the same holds when the closure is created after both stores and neither can run after its creation.
+func (tb *TB) gatedCell(a *ssa.Alloc, at *Term, ci *cellInfo, live []storeRec, path []string, e *Env) *Term {
+	if len(live) != 2 || ci.escaped {
+		return nil
+	}
+	var st [2]*ssa.Store
+	for i, s := range live {
+		x, ok := s.in.(*ssa.Store)
+		if !ok || s.ext != "" || s.val == nil || x.Parent() != a.Parent() || !pathHasPrefix(path, s.path) || len(s.path) != 0 {
+			return nil
+		}
+		st[i] = x
+	}
+	s0, s1 := st[0], st[1]
+	if dominatesInstr(s1, s0) {
+		s0, s1 = s1, s0
+	}
+	if !dominatesInstr(s0, s1) || s0.Block() == s1.Block() {
+		return nil
+	}
+	// the one extra condition under which s1 runs
+	c0 := CondsAt(s0.Block())
+	c1 := CondsAt(s1.Block())
+	if len(c1) != len(c0)+1 {
+		return nil
+	}
+	extra := c1[0] // CondsAt lists the innermost condition first
+	for i := range c0 {
+		if c1[i+1] != c0[i] {
+			return nil
+		}
+	}
+	// the read point: the load itself, or the closure creation for a read inside a closure
+	var at0 ssa.Instruction = tb.curLoad
+	if at0 == nil || at0.Parent() != a.Parent() {
+		at0 = nil
+		if refs := a.Referrers(); refs != nil {
+			for _, r := range *refs {
+				if mc, ok := r.(*ssa.MakeClosure); ok {
+					if at0 != nil {
+						return nil
+					}
+					at0 = mc
+				}
+			}
+		}
+		if at0 == nil {
+			return nil
+		}
+	}
+	if instrReaches(at0, s0) || instrReaches(at0, s1) || !instrReaches(s0, at0) || !instrReaches(s1, at0) {
+		return nil
+	}
+	// the read must lie after the conditional region (not inside s1's branch, where only s1 is visible)
+	if s1.Block().Dominates(at0.Block()) {
+		return nil
+	}
+	ev := e
+	if at != nil && at.Op == "alloc" {
+		ev = at.Env
+	}
+	proj := func(v ssa.Value) *Term {
+		t := tb.Val(v, ev)
+		for _, p := range path {
+			if strings.HasPrefix(p, "[") {
+				t = tb.indexOf(t, mk("const", strings.Trim(p, "[]")), ev)
+			} else {
+				t = tb.fieldOf(t, p, ev)
+			}
+		}
+		return t
+	}
+	ct := tb.Val(extra.V, ev)
+	v1, v0 := proj(s1.Val), proj(s0.Val)
+	if extra.Pos {
+		return normIte(ct, v1, v0)
+	}
+	return normIte(ct, v0, v1)
 }
 
 // Load: the content of the storage an address designates.
